@@ -144,7 +144,14 @@ pub struct LPlan {
     /// One uplink datagram per step (true) or everything due at once (false).
     pub fine: bool,
     pub probing: bool,
+    /// How the receiver is named on the command line (IPv4 literal, host name, short form).
+    #[serde(default = "default_receiver_host")]
+    pub receiver_host: String,
     pub actions: Vec<TimedAction>,
+}
+
+pub fn default_receiver_host() -> String {
+    "127.0.0.1".to_string()
 }
 
 impl LPlan {
@@ -553,6 +560,7 @@ pub fn generate(seed: u64, profile: &Profile) -> LPlan {
         max_steps: 400_000,
         fine: r.chance(0.5),
         probing: true,
+        receiver_host: default_receiver_host(),
         actions,
     }
 }
